@@ -174,6 +174,8 @@ func (tmg *TCPMuxGroup) worker() {
 			tmg.acceptCh <- c
 		})
 		if err != nil {
+			// the group has been closed, nobody will take this connection
+			c.Close()
 			return
 		}
 	}
